@@ -204,6 +204,43 @@ def h_presence(env):
         env.check("witness:reference-HasField==prescribed", rrep == exp, "reference %r, prescribed %r" % (rrep, exp))
 
 
+def h_received_empty(env):
+    """an empty message that was *received* (through every decoding entry point) is present: serialized_on_wire reports it, and as a plain
+    sub-message of another message it is emitted (0a 00) - unlike a fresh Leaf() that nobody ever touched"""
+    import betterproto
+
+    cat = catalogue.get(["s2", "nested"])
+    mod = shapes.build_bp(cat)
+    ways = ["parse", "FromString", "load-delimited", "load-size-0", "load-no-size", "from_dict-class", "from_dict-instance", "fresh"]
+    way = ways[env.choose("way", len(ways))]
+    if way == "parse":
+        x = mod.Leaf().parse(b"")
+    elif way == "FromString":
+        x = mod.Leaf.FromString(b"")
+    elif way == "load-delimited":
+        x = mod.Leaf().load(betterproto.BytesIO(bytes([0]) + bytes([2, 8, 1])), betterproto.SIZE_DELIMITED)
+    elif way == "load-size-0":
+        x = mod.Leaf().load(betterproto.BytesIO(bytes([8, 1])), 0)
+    elif way == "load-no-size":
+        x = mod.Leaf().load(betterproto.BytesIO(b""))
+    elif way == "from_dict-class":
+        x = mod.Leaf.from_dict({})
+    elif way == "from_dict-instance":
+        x = mod.Leaf().from_dict({})
+    else:
+        x = mod.Leaf()
+    received = way != "fresh"
+    env.check("received-empty-message-is-present", betterproto.serialized_on_wire(x) == received, way)
+    t = env.int("t", 0, 63)
+    outer = mod.M(leaf=x, t=t)
+    data = bytes(outer)
+    env.observe("bytes", data)
+    want = (sw.len_field(2, b"") if received else b"") + (sw.field(3, "uint32", t) if t != 0 else b"")
+    env.check("embedded-received-empty-message-is-emitted", data == want, way)
+    back = mod.M().parse(data)
+    env.check("embedded-presence-survives-the-round-trip", betterproto.serialized_on_wire(back.leaf) == received, way)
+
+
 def units(tier):
     u = []
     cats = []
@@ -218,6 +255,7 @@ def units(tier):
         u.append(("fresh[%s]" % name, h_fresh, {"cat": c}))
         for way in WAYS:
             u.append(("presence[%s | %s]" % (name, way), h_presence, {"cat": c, "way": way}))
+    u.append(("received-empty-message[every decoding entry point]", h_received_empty, {}))
     return u
 
 
